@@ -50,3 +50,18 @@ Theorem C10_textual_time_conditions : forall l trail its e, Forall ok_pair l -> 
   exists t', expand_tc e = Ok t' /\ parse_cond (tc_text l trail) = Ok (flat t').
 Proof. exact resolver_is_textual_tc_substitution_closed. Qed.
 Print Assumptions C10_textual_time_conditions.
+
+(* ---- every schedule. Model/ResolveAsync.v writes expand_packages as a task tree: the transformer pass (repeatabilities) runs first, the
+   coroutines of the package occurrences are gathered in scan order, every result goes to the place of its own coroutine. Resolving a package key
+   is an arbitrary program of the key. Whatever the order in which the look-ups complete, the resolved tree is the sequential substitution; with a
+   package table that is expand_packages of Model/Resolve.v, i.e. the function the theorems above are about. *)
+From Ahb Require Import Model.Async Model.ResolveAsync Proofs.C10_async.
+
+Theorem C10_expansion_under_every_schedule : forall (U : Type) (lookup_prog : text -> prog (pv U)) (c : ctx (pv U)) (e : expr) (r : pv U),
+  steps (initial c (expand_prog U lookup_prog e)) (Done r) -> as_tree r = expand_packages_fn (lookup_of U lookup_prog c) e.
+Proof. exact expand_every_schedule. Qed.
+Print Assumptions C10_expansion_under_every_schedule.
+
+Theorem C10_sequential_expansion_is_expand_packages : forall p e, expand_packages p e = expand_packages_fn (lookup_of_table p) e.
+Proof. exact expand_is_fn. Qed.
+Print Assumptions C10_sequential_expansion_is_expand_packages.
